@@ -181,6 +181,71 @@ static void run_cmd(char **a, int n) {
         } else { q_push(q, d, l); q_meta_push(q, d[0], d[0], 0); }
         printf("qinj:%zu", l); free(d);
     }
+#ifdef USE_TLS_1_2
+    else if (!strcmp(a[0], "nullsh") && n >= 3) {
+        /* nullsh <variant 0|1|2> <suite hex> : a key-less attacker answers the client's ClientHello with a ServerHello of its own
+           (TLS 1.2, no extensions; session id: 0 = echo of what the client proposed (or 32 made-up bytes), 1 = empty, 2 = 32 made-up
+           bytes) choosing the given suite.  Only public values are used. */
+        peer_t *p = &g_c; ssl_t *ssl = p->ssl; int var = atoi(a[1]); unsigned suite = (unsigned) strtoul(a[2], NULL, 16);
+        unsigned char m[128]; size_t o = 0, sl = 0; unsigned char sid[32];
+        printf("nullsh:c pre="); print_snap(p); printf(" ");
+        if (!ssl) { printf("nil "); }
+        else {
+            if (var == 0 && ssl->sessionIdLen > 0 && ssl->sessionIdLen <= 32) { sl = ssl->sessionIdLen; memcpy(sid, ssl->sessionId, sl); }
+            else if (var == 1) sl = 0;
+            else { sl = 32; for (size_t i = 0; i < 32; i++) sid[i] = (unsigned char) (0xA0 + i); }
+            m[o++] = 22; m[o++] = 3; m[o++] = 3; o += 2;                    /* record header, length below */
+            m[o++] = 2; o += 3;                                             /* ServerHello, length below */
+            m[o++] = 3; m[o++] = 3;
+            for (int i = 0; i < 32; i++) m[o++] = (unsigned char) (0x50 + i);   /* server random (not the downgrade sentinel) */
+            m[o++] = (unsigned char) sl; memcpy(m + o, sid, sl); o += sl;
+            m[o++] = (unsigned char) (suite >> 8); m[o++] = (unsigned char) suite; m[o++] = 0;
+            m[3] = (unsigned char) ((o - 5) >> 8); m[4] = (unsigned char) (o - 5);
+            m[6] = 0; m[7] = (unsigned char) ((o - 9) >> 8); m[8] = (unsigned char) (o - 9);
+            feed(p, m, o, 0);
+        }
+        printf("post="); print_snap(p);
+    }
+    else if (!strcmp(a[0], "nullfin") && n >= 2) {
+        /* nullfin <victim c|s> : the "secrets still at their initial value" attacker (cf. CVE-2014-0224): ChangeCipherSpec, then a
+           Finished and one application record sealed under the keys that follow from an ALL-ZERO master secret and the two public
+           randoms, the Finished computed over the victim's public transcript.  AES-GCM suites of TLS 1.2 only. */
+        peer_t *p = side(a[1]); ssl_t *ssl = p->ssl; int klen = 0, sha384 = 0;
+        printf("nullfin:%s pre=", a[1]); print_snap(p); printf(" ");
+        if (ssl && ssl->cipher) switch (ssl->cipher->ident) { case 0x009c: case 0xc02f: case 0xc02b: klen = 16; break;
+                                                               case 0x009d: case 0xc030: case 0xc02c: klen = 32; sha384 = 1; break; default: break; }
+        if (!ssl) printf("nil ");
+        else if ((ssl->flags & SSL_FLAGS_DTLS) || ACTV_VER(ssl, v_tls_1_3_any) || !klen) printf("skip:suite=%04x ", ssl->cipher ? ssl->cipher->ident : 0);
+        else {
+            static const unsigned char ccs[6] = { 20, 3, 3, 0, 1, 1 };
+            unsigned char zero[48], seed[13 + 64 + 64], kb[2 * 32 + 8], *key, *iv, vd[12], hh[64], rec[128]; size_t hl;
+            int to_client = !p->is_server;      /* the attacker plays the victim's peer */
+            memset(zero, 0, sizeof zero);
+            feed(p, ccs, sizeof ccs, 0);
+            memcpy(seed, "key expansion", 13); memcpy(seed + 13, ssl->sec.serverRandom, 32); memcpy(seed + 45, ssl->sec.clientRandom, 32);
+            prf2(zero, 48, seed, 13 + 64, kb, (psSize_t) (2 * klen + 8), sha384 ? CRYPTO_FLAGS_SHA3 : CRYPTO_FLAGS_SHA2);
+            key = kb + (to_client ? klen : 0); iv = kb + 2 * klen + (to_client ? 4 : 0);
+            if (sha384) { psSha384_t c; psSha384Cpy(&c, &ssl->sec.msgHashSha384); psSha384Final(&c, hh); hl = 48; }
+            else { psSha256_t c; psSha256Cpy(&c, &ssl->sec.msgHashSha256); psSha256Final(&c, hh); hl = 32; }
+            memcpy(seed, to_client ? "server finished" : "client finished", 15); memcpy(seed + 15, hh, hl);
+            prf2(zero, 48, seed, (psSize_t) (15 + hl), vd, 12, sha384 ? CRYPTO_FLAGS_SHA3 : CRYPTO_FLAGS_SHA2);
+            for (int k = 0; k < 2; k++) {       /* record 0: Finished; record 1: application data "forged" */
+                unsigned char pt[16], nonce[12], aad[13], tag[16]; size_t pl; psAesGcm_t g;
+                if (k == 0) { pt[0] = 20; pt[1] = 0; pt[2] = 0; pt[3] = 12; memcpy(pt + 4, vd, 12); pl = 16; } else { memcpy(pt, "forged", 6); pl = 6; }
+                memset(aad, 0, 8); aad[7] = (unsigned char) k; aad[8] = k ? 23 : 22; aad[9] = 3; aad[10] = 3; aad[11] = 0; aad[12] = (unsigned char) pl;
+                memcpy(nonce, iv, 4); memset(nonce + 4, 0, 8); nonce[11] = (unsigned char) k;
+                rec[0] = aad[8]; rec[1] = 3; rec[2] = 3; rec[3] = 0; rec[4] = (unsigned char) (8 + pl + 16); memcpy(rec + 5, nonce + 4, 8);
+                if (psAesInitGCM(&g, key, (uint8_t) klen) < 0) { printf("gcm-init-failed "); break; }
+                psAesReadyGCM(&g, nonce, aad, 13); psAesEncryptGCM(&g, pt, rec + 13, (uint32_t) pl); psAesGetGCMTag(&g, 16, tag); psAesClearGCM(&g);
+                memcpy(rec + 13 + pl, tag, 16);
+                printf("%s ", k ? "[appdata]" : "[finished]");
+                feed(p, rec, 13 + pl + 16, 0);
+                if (!p->ssl || (p->ssl->flags & (SSL_FLAGS_ERROR | SSL_FLAGS_CLOSED))) break;
+            }
+        }
+        printf("post="); print_snap(p);
+    }
+#endif
     else if (!strcmp(a[0], "seths") && n >= 3) { peer_t *p = side(a[1]); if (p->ssl) p->ssl->hsState = (uint8_t) atoi(a[2]); printf("seths:%d", atoi(a[2])); }
     else if (!strcmp(a[0], "tick") && n >= 2) { g_vtime += atol(a[1]); printf("tick:%ld", g_vtime); }
     else if (!strcmp(a[0], "sendchunk") && n >= 2) { g_sendchunk = atoi(a[1]); printf("sendchunk:%d", g_sendchunk); }
